@@ -170,6 +170,12 @@ def gen_value(rng, i, kind):
 
 
 def gen_kwargs(rng):
+    if rng.random() < 0.12:
+        # is_pep484_tower together with overrides of float/complex: valid when they agree with the
+        # tower, a conflict (rejected by sanification, after validation) when they do not
+        return {'7': ['bool', True],
+                '4': ['frozen', rng.choice([[[1, 4]], [[2, 103]], [[1, 101]], [[1, 101], [2, 102]], [[3, 4]],
+                                            [[1, 4], [3, 4]]])]}
     kw = {}
     for _ in range(rng.choice([0, 1, 1, 2, 2, 3, 4])):
         i = rng.choice(list(range(17)) + [6, 6, 7, 9, 3, 4, 5, 11, 14, 16, 17, 19])
@@ -200,7 +206,10 @@ def gen_history(rng, maxlen):
     news = []
     for _ in range(rng.randint(2, maxlen)):
         r = rng.random()
-        if news and r < 0.35:
+        if news and r < 0.15:
+            kw = dict(rng.choice(news))          # the very same call again (valid or not)
+            ops.append(['new', kw])
+        elif news and r < 0.35:
             kw = mutate_kwargs(rng, rng.choice(news))
             ops.append(['new', kw])
             news.append(kw)
